@@ -34,6 +34,7 @@ type c15Cfg struct {
 	Ballast  int   `json:"ballast_entries"` // never-expiring entries in cache 0 (stretches every sweep)
 	Gap      int   `json:"wave_gap_us"`    // pause before each further wave, microseconds
 	Swap     int   `json:"callback_swap"`  // 0 none; 1 SetEvictedCallback(another) after construction; 2 SetEvictedCallback(nil)
+	SubMs    int64 `json:"interval_us,omitempty"` // > 0: the cleanup interval is this many MICROSECONDS (Interval is 1 then, for the deadlines)
 	DropPart bool  `json:"drop_younger_half_first"` // the younger half of the caches is dropped (and must be released) while the older half is still in use
 	Disturb  bool  `json:"slow_callback_once"` // the first evicted callback takes max(40 intervals, 300ms): one sweep overruns; the pace afterwards is measured
 }
@@ -55,6 +56,10 @@ var c15Gen = rapid.Custom(func(t *rapid.T) c15Cfg {
 	c.Swap = []int{0, 0, 1, 2}[uniform(t, 4, "swap")]
 	c.Disturb = uniform(t, 3, "disturb") == 0
 	c.DropPart = rapid.Bool().Draw(t, "dropPart")
+	if c.Interval > 0 && c.Interval < 1000 && uniform(t, 5, "subMillisecond") == 0 {
+		// intervals below a millisecond are positive intervals like any other
+		c.Interval, c.SubMs = 1, []int64{50, 200, 499, 700}[uniform(t, 4, "intervalUS")]
+	}
 	return c
 })
 
@@ -160,8 +165,15 @@ func (c c15CacheOf) Set(k string, ttl time.Duration) { c.c.Set(k, c.s, ttl) }
 func (c c15CacheOf) Count() int                      { return c.c.Count() }
 func (c c15CacheOf) DeleteExpired()                  { c.c.DeleteExpired() }
 
+func (cfg c15Cfg) iv() time.Duration {
+	if cfg.SubMs > 0 {
+		return time.Duration(cfg.SubMs) * time.Microsecond
+	}
+	return time.Duration(cfg.Interval) * time.Millisecond
+}
+
 func buildC15(cfg c15Cfg, idx int, l *ledger, sent *sentinel) anyCache {
-	iv := time.Duration(cfg.Interval) * time.Millisecond
+	iv := cfg.iv()
 	pre := fmt.Sprintf("c%d/", idx)
 	_ = pre
 	if cfg.Of {
@@ -250,7 +262,7 @@ func oneC15(cfg c15Cfg) (viol string, miss string) {
 	func() {
 		s := &sentinel{}
 		runtime.SetFinalizer(s, func(*sentinel) { atomic.StoreInt32(&released, 1) })
-		iv := time.Duration(cfg.Interval) * time.Millisecond
+		iv := cfg.iv()
 		if cfg.Of {
 			a := cache.NewOf[string, *sentinel](cache.WithCleanupIntervalOf[string, *sentinel](iv))
 			a.SetForever("sentinel", s)
